@@ -88,6 +88,8 @@ def random_case(rng, tier):
         opts['register_twice'] = True
     if rng.random() < 0.25:
         opts['cleanup_raises'] = True
+    if rng.random() < 0.2:
+        opts['late_output'] = True
     return {'program': program, 'schedule': schedule, 'opts': opts}
 
 
@@ -155,7 +157,7 @@ def _oracle(engine, result, case, drive):
     else:
         if state == 'finished' and case['program'].get('kind') == 'workchain':
             result.counters['kind:workchain'] += 1
-            reference = common.reference_run(case['program'], {'cleanups': 0})
+            reference = common.reference_run(case['program'], {'cleanups': 0, 'late_output': case['opts'].get('late_output')})
             problems = []
             if future.cancelled() or future.exception() is not None:
                 problems.append('future does not hold a result')
@@ -179,6 +181,8 @@ def _oracle(engine, result, case, drive):
             else:
                 if future.result() is not proc.outputs and future.result() != proc.outputs:
                     problems.append(f'future result {future.result()!r} != outputs {proc.outputs!r}')
+                if case['opts'].get('late_output'):
+                    model['outputs'] = dict(model['outputs'], late='emitted on entering FINISHED')
                 if programs.freeze(proc.outputs) != programs.freeze(model['outputs']) and model['final'] == 'finished':
                     problems.append(f'outputs {proc.outputs!r} != emitted by the program {model["outputs"]!r}')
             if model['final'] == 'finished':
